@@ -398,7 +398,10 @@ func init() {
 				}
 			}
 			for i, tk := range toks {
-				if !tk.In {
+				// (nothing is injected between the two words of an operator:
+				// what precedes is then no operator, "x starts $with y", and the
+				// first offending token is the word before the injection)
+				if !tk.In || tk.Cont {
 					continue
 				}
 				whats := []string{}
@@ -429,7 +432,7 @@ func init() {
 			toks := m.Tokens(s.Q.Tpl(tpl).Body)
 			var ins []int
 			for i, tk := range toks {
-				if tk.In {
+				if tk.In && !tk.Cont {
 					ins = append(ins, i)
 				}
 			}
